@@ -34,8 +34,15 @@ def run_case(cs, ctx):
         prof['spec'] = {'shapes': ['dense', 'no_ties', 'lowerq', 'lowerq', 'tight_lecturer', 'one_lecturer']}
         prof['opts'] = dict(prof['opts'], twopl=(cs // 9) % 10 < 7, pc=None if (cs // 9) % 10 < 7 else (cs // 90) % 2 == 0)
         prof['medium_rate'] = 0.4
+    if crit in ('mincost', 'minsqcost', 'mincostlsb') and (cs // 9) % 10 >= 8:
+        # one-sided, closures allowed, both weights positive, matchings of different sizes whose costs cross
+        prof = {'name': 'c03cross', 'spec': {}, 'size_cost_cross': True, 'medium_rate': 0, 'decoy_rate': 0,
+                'opts': {'ncrit': 1, 'crit_pool': [crit], 'twopl': (cs // 90) % 3 == 0, 'pc': True, 'stab': False}}
+        ctx.cov('size_cost_cross_cases')
     if crit in ('gen', 'gre'):
         prof['spec'] = {'shapes': ['dense', 'long_lists', 'no_ties', 'lowerq', 'tight_lecturer']}
+    if prof.get('size_cost_cross'):
+        prof['force_extras'] = [(cs // 7) % 2 + 1, [1, 2, 3, 5][(cs // 11) % 4]]
     r = lc.lp_case(cs, ctx, prof, probe_rate=0.08 if quick else 0.3, probe_cap=48 if quick else 160)
     f = r['facts']
     if f.get('status') == 'Optimal' and f.get('enumerable'):
